@@ -48,6 +48,11 @@ reg('C01', 'exhaustive operator-skeleton enumeration + Hypothesis grammar-direct
     'Hypothesis scripts up to ~40 items add structural names, implicit names under every parent kind, ^^^, self-closing marks and text, across 5 self-closing-style/syntax configurations.',
     'The generator never writes `>` after a group, a text-only item or a self-closed element, and never uses snippet keys as names; beyond the enumerated skeleton size the space is sampled.')
 
+reg('C02', 'exhaustive enumeration of shape × placement × N × width × numbering form + Hypothesis scripts; differential against a reference unroll/counter/maxRepeat-budget model',
+    'All combinations of 7 nesting shapes, 7 counter placements, N ≤ 6 (12), width ≤ 3 (4) and 10 (14) numbering forms, and maxRepeat 1..30 on 9 nested/sequential/grouped repeater scripts are '
+    'expanded and compared by exact string equality with the reference; Hypothesis scripts put counters into every value position below groups nested ≤ 3 with N ≤ 12, with and without maxRepeat.',
+    '`*0`, maxRepeat=0, `$@^` and reverse numbering under a truncating maxRepeat are outside the statement and not generated; names that are snippet keys are skipped.')
+
 NOT_APPLICABLE = [
 ]
 
